@@ -377,6 +377,8 @@ def gen_case(rng):
     # a quarter of the jobs travel as the gateway submits them: written by router._spawn_local as a job-spec file and read back
     # by cascade.benchmarks.get_job before any task runs (the declaration order of output_schema IS the yield order)
     c["via_gateway"] = rng.random() < 0.25
+    # a third of the cases build their callables as plain functions sharing ONE code object, the behaviour bound as a default argument
+    c["fn_wrap"] = rng.random() < 0.33
     r = rng.random()
     if r < 0.55:
         # several tasks per TaskSequence (consecutive in topological order), with its own publish subset: an unpublished
